@@ -380,4 +380,141 @@ def r5_file_lifecycle(a, tier):
     return rep
 
 
-RULES = [r1_mirror, r2_codecs, r3_reader, r4_exception_sets, r5_file_lifecycle]
+def r6_checksum(a, tier):
+    from ..minieval import Raised, Unsupported
+    from ..modelinterp import Hook, ModelInterp
+    rep = RuleReport(
+        'C19.R6',
+        'checksum contract of the line format, interpreted: unhashed(hashed(d)) is d for data with the characters the format itself uses; '
+        'a line whose stored checksum differs from the checksum of its data, and a line without the checksum frame, raise a '
+        'BadPacketError subclass (which receive() skips) - a corrupted or truncated line is not handed on as data',
+        floor=5,
+    )
+    pk = 'tatsu.packetz.packet'
+    hashed, unhashed = a.p.func(f'{pk}.hashed'), a.p.func(f'{pk}.unhashed')
+    import re as _re
+    import zlib
+
+    def h2s(d):
+        return f'{zlib.crc32(str(d).encode()) & 0xffff:04x}'
+
+    def errp(msg, extype=None):
+        raise Raised(getattr(extype, 'q', str(extype)).split('.')[-1] if extype is not None else 'Exception', ast.Pass())
+
+    def it():
+        m = ModelInterp(a, {'hash2str': Hook(h2s), 'ERROR_print': Hook(errp), 're': Hook(None, match=Hook(lambda p_, s_: _re.match(p_, s_)), error=_re.error)})
+        m.methods = lambda recv, name, args, kwargs: (getattr(recv, name)(*args) if isinstance(recv, _re.Match) and name in ('group', 'groups') else NotImplemented)
+        return m
+    datas = ['{"a":1}', '{"a":"}"}', '{"hash":"00","data":{}}', '{}', '{"t":"~a1~"}']
+    for d in datas:
+        try:
+            line = it().call_fn(hashed, [d])
+            back, raised = None, None
+            try:
+                back = it().call_fn(unhashed, [line])
+            except Raised as r:
+                raised = r.cls_name
+        except Unsupported as e:
+            raise AnalysisError(f'C19.R6: cannot interpret hashed/unhashed: {e}') from e
+        ok = back == d
+        rep.add({'data': d, 'line': line, 'unhashed': back, 'raised': raised, 'ok': ok})
+        if not ok:
+            rep.fail(unhashed.qualname, f'checksum:roundtrip:{d}', f'unhashed(hashed({d!r})) gives {back!r} (raised {raised})', unhashed.loc)
+    good = it().call_fn(hashed, ['{"a":1}'])
+    for what, line in (('data changed', good.replace('"a":1', '"a":2')), ('checksum changed', good.replace('"hash":"', '"hash":"0', 1)),
+                       ('frame cut short', good[: len(good) // 2]), ('no frame', '{"a":1}')):
+        back, raised = None, None
+        try:
+            back = it().call_fn(unhashed, [line])
+        except Raised as r:
+            raised = r.cls_name
+            exc = getattr(r.node, 'exc', None)
+            if isinstance(exc, ast.Call):  # raise ERROR_print(msg, extype=<class>): the class that is raised
+                raised = next((dotted(k.value).split('.')[-1] for k in exc.keywords if k.arg == 'extype'), raised)
+        except Unsupported as e:
+            raise AnalysisError(f'C19.R6: cannot interpret unhashed: {e}') from e
+        ok = back is None and raised in ('BadPacketError', 'PacketHashError')
+        rep.add({'corrupt_line': what, 'returns': back, 'raised': raised, 'ok': ok})
+        if not ok:
+            rep.fail(unhashed.qualname, f'checksum:{what}', f'unhashed on a line with {what} returns {back!r} / raises {raised}; required: a BadPacketError '
+                     f'(the line must not reach the decoder as data)', unhashed.loc)
+    return rep
+
+
+def r7_queue_invariants(a, tier):
+    from ..rules.common import through_locals
+    rep = RuleReport(
+        'C19.R7',
+        'queue invariants: (a) the queue file is opened for writing in append mode only (no mode that truncates or rewrites: packets whose '
+        'send completed stay where readers will find them) and each send writes the record followed by the line terminator the readers '
+        'test for; (b) a new reader starts at offset 0 with an empty seen-set (it receives every packet already in the file); (c) every '
+        'packet object gets an id of its own from the id generator when it is created (the seen-set de-duplicates by id: a constant or '
+        'class-level id makes every packet after the first look like a duplicate)',
+        floor=4,
+    )
+    q = 'tatsu.packetz.queue.PacketzQueue'
+    cls = a.p.cls(q)
+    opens = 0
+    for m in cls.methods.values():
+        for n in walk_no_defs(m.node):
+            if isinstance(n, ast.Call) and isinstance(n.func, ast.Attribute) and n.func.attr == 'open' and 'path' in norm(n.func.value):
+                mode = n.args[0] if n.args else next((k.value for k in n.keywords if k.arg == 'mode'), None)
+                mv = mode.value if isinstance(mode, ast.Constant) else ('r' if mode is None else None)
+                opens += 1
+                writes = mv is None or any(c in mv for c in 'wax+')
+                ok = (not writes) or (mv is not None and 'a' in mv and 'w' not in mv and '+' not in mv and 'x' not in mv)
+                rep.add({'open': f'{m.name}: {norm(n)[:70]}', 'mode': mv, 'append_only_or_read': ok})
+                if not ok:
+                    rep.fail(m.qualname, f'open-mode:{mv}', f'{m.name}() opens the queue file with mode {mv!r}: anything but append truncates or '
+                             f'overwrites records other readers have not seen', f'{m.module.relpath}:{n.lineno}')
+    send = cls.methods.get('send')
+    def _ends_with_newline(e) -> bool:
+        e = through_locals(send, e) if send is not None else e
+        if isinstance(e, ast.Constant):
+            return isinstance(e.value, str) and e.value.endswith('\n')
+        if isinstance(e, ast.BinOp) and isinstance(e.op, ast.Add):
+            return _ends_with_newline(e.right)
+        if isinstance(e, ast.JoinedStr) and e.values:
+            return _ends_with_newline(e.values[-1])
+        return False
+    term_ok = False
+    if send is not None:
+        # the writer may live in a helper of send's extent
+        fns = [send] + [cls.methods[c.func.attr] for c in ast.walk(send.node) if isinstance(c, ast.Call) and isinstance(c.func, ast.Attribute)
+                        and norm(c.func.value) == 'self' and c.func.attr in cls.methods and c.func.attr.startswith('_')]
+        for f_ in fns:
+            writes = [n for n in ast.walk(f_.node) if isinstance(n, ast.Call) and isinstance(n.func, ast.Attribute) and n.func.attr in ('write', 'writelines') and n.args]
+            prints = [n for n in ast.walk(f_.node) if isinstance(n, ast.Call) and dotted(n.func) == 'print' and any(k.arg == 'file' for k in n.keywords)
+                      and not any(k.arg == 'end' for k in n.keywords)]
+            if prints or (writes and _ends_with_newline(writes[-1].args[0])):
+                term_ok = True
+    rep.add({'send_writes_record_plus_newline': term_ok})
+    if not term_ok:
+        rep.fail(f'{q}.send', 'send-terminator', 'send() does not write `<record> + "\\n"`: readers treat a line without the terminator as a partial write and '
+                 'never deliver it', send.loc if send else cls.loc)
+    init = cls.methods.get('__init__')
+    told = [n for n in walk_no_defs(init.node) if isinstance(n, ast.Assign) and any(norm(t) == 'self._told' for t in n.targets)] if init else []
+    seen = [n for n in walk_no_defs(init.node) if isinstance(n, (ast.Assign, ast.AnnAssign)) and norm(n.targets[0] if isinstance(n, ast.Assign) else n.target) == 'self._seen'] if init else []
+    ok = len(told) == 1 and isinstance(told[0].value, ast.Constant) and told[0].value.value == 0
+    ok2 = len(seen) == 1 and isinstance(seen[0].value, ast.Call) and dotted(seen[0].value.func) == 'set' and not seen[0].value.args
+    rep.add({'new_reader_offset_is_0': ok, 'new_reader_seen_set_empty': ok2})
+    if not ok:
+        rep.fail(f'{q}.__init__', 'reader-start', 'a new queue object does not start reading at offset 0: packets already in the file are never delivered to it', init.loc)
+    if not ok2:
+        rep.fail(f'{q}.__init__', 'reader-seen', 'a new queue object does not start with an empty set() of seen ids', init.loc)
+    # (c) fresh ids
+    wid = a.p.classes.get('tatsu.packetz.packet.WithID')
+    new = wid.methods.get('__new__') if wid else None
+    fresh = new is not None and any(isinstance(n, ast.Assign) and any(isinstance(t, ast.Attribute) and t.attr == 'id' for t in n.targets)
+                                    and isinstance(n.value, ast.Call) and dotted(n.value.func).split('.')[-1] == 'new_id' for n in walk_no_defs(new.node))
+    pkt = a.p.classes.get('tatsu.packetz.packet.Packet')
+    is_sub = pkt is not None and 'tatsu.packetz.packet.WithID' in a.ct.mro('tatsu.packetz.packet.Packet')
+    overridden = pkt is not None and '__new__' in pkt.methods
+    rep.add({'WithID.__new__ assigns new_id() per instance': fresh, 'Packet derives from WithID': is_sub, 'Packet overrides __new__': overridden})
+    if not (fresh and is_sub and not overridden):
+        rep.fail('tatsu.packetz.packet.WithID.__new__', 'id-not-fresh', 'a Packet does not receive `new_id()` of its own when it is created: with a shared id the '
+                 'seen-set of every reader drops all packets but the first', (new.loc if new else (wid.loc if wid else None)))
+    return rep
+
+
+RULES = [r1_mirror, r2_codecs, r3_reader, r4_exception_sets, r5_file_lifecycle, r6_checksum, r7_queue_invariants]
